@@ -163,6 +163,27 @@ prop("C17", "exploration",
      "runtime round-trip oracle", "DESIGN.md §3 C17")
 
 
+ENGINE_ASSUME = ["loopback TCP / Unix sockets; kernel segmentation is what loopback plus the shim's shortened reads/writes produce",
+                 "liveness clauses are decided by the state-based stuck predicate of DESIGN §2.5 (wall clock only decides when to look)"]
+prop("C01", "exploration",
+     "cases = connections: per engine configuration (seed-shuffled from {LT, ET, ET+chunk 2K/8K} x {1,4 loops} x {reactor, reuseport} x {tcp, tcp6, unix} x {1K,4K,64K read buffer}, every 4th as gnet "
+     "Client via Dial/Enroll) 12 (thorough 30) peers send a keyed stream (byte i = f(key,i)) of length {0..3, cap+-1, k*cap, random up to 200K} cut into {1-byte, 2-byte, small, cap-1, cap, cap+1, "
+     "k*cap, one write, mixed} segments and end with close / CloseWrite / delayed close; in LT mode the shim additionally shortens read(2) and injects EAGAIN. The handler runs a PRNG-chosen "
+     "program of Read/Next/Peek+Discard/Peek/Discard/WriteTo(short or failing writer)/nothing with boundary-seeking sizes in every callback. Oracle inside the callbacks: every byte obtained equals "
+     "the stream at its offset, Peek does not consume, InboundBuffered drops by exactly the consumed count, consumed+InboundBuffered never decreases and equals the sum of read(2) results on the "
+     "descriptor (shim), and at OnClose equals everything the peer sent; a stall is decided by the stuck predicate. distinct_nontrivial = distinct (configuration class, operation, argument class) "
+     "and (configuration class, segmentation, end kind) tuples checked",
+     [
+         {"harness": "eng", "flavour": "shim", "args": {"quick": ["--mode", "c01"], "thorough": ["--mode", "c01"]}, "timeout": {"quick": 900, "thorough": 3400}},
+         {"harness": "eng", "flavour": "shim", "tags": ["poll_opt"], "args": {"quick": ["--mode", "c01", "--n", "4"], "thorough": ["--mode", "c01", "--n", "40"]}, "timeout": {"quick": 900, "thorough": 3400}},
+         {"harness": "eng", "flavour": "shim", "tags": ["gc_opt"], "args": {"quick": ["--mode", "c01", "--n", "3"], "thorough": ["--mode", "c01", "--n", "40"]}, "timeout": {"quick": 900, "thorough": 3400}},
+         {"harness": "eng", "flavour": "shim", "race": True, "tiers": ["thorough"], "args": {"thorough": ["--mode", "c01", "--n", "24"]}, "timeout": {"thorough": 3400}},
+     ],
+     "Online stream oracle inside the event handler of real engines over real sockets, with a syscall shim (LT only) widening the kernel's segmentation.",
+     "content oracle is keyed by the peer address (server role) or by the Dial/Enroll context (client role)",
+     "runtime monitor: keyed-stream content oracle + conservation against shim byte counts + stuck predicate", "DESIGN.md §3 C01", assumptions=ENGINE_ASSUME)
+
+
 # ---------------------------------------------------------------------------------------
 NOT_APPLICABLE = []
 
